@@ -69,11 +69,21 @@ TableOk == \A c \in Configs :
 
 (* ---- C04 ---- *)
 Contains(s, sub) == \E k \in 0..(Len(s) - Len(sub)) : SubSeq(s, k + 1, k + Len(sub)) = sub
+(* a refusal names the unsupported feature: the message contains the words of at least one feature of the  *)
+(* configuration that is unavailable (o.words: which words of the fixed vocabulary the message contains)    *)
+UnsupportedWords(c) ==
+  (IF ~QedMethodOk(c) THEN {{"iterate-exact"}} ELSE {})
+  \cup (IF c.pol /\ c.tl THEN {{"olarized", "ime-like"}} ELSE {})
+  \cup (IF c.pol /\ c.qcd = 4 THEN {{"olarized", "NNLO"}} ELSE {})
+  \cup (IF c.tl /\ c.qcd = 4 THEN {{"ime-like", "NNLO"}} ELSE {})
+  \cup (IF c.qcd = 4 /\ c.top THEN {{"nf=6", "N3LO"}} ELSE {})
+Names(c, o) == \E ws \in UnsupportedWords(c) : ws \subseteq {o.words[j] : j \in 1..Len(o.words)}
 C04_Verdict(c, o) ==
   IF o.kind \notin {"finite", "NotImplementedError", "ValueError"} THEN "C04:crash:" \o o.exc
   ELSE IF o.kind = "finite" /\ ~o.allFinite THEN "C04:non-finite-numbers-written"
   ELSE IF Expected(c) = "finite" /\ o.kind # "finite" THEN "C04:supported-configuration-refused:" \o o.exc
   ELSE IF Expected(c) = "refused" /\ o.kind = "finite" THEN "C04:unavailable-ingredient-not-refused:" \o Refuser(c)
+  ELSE IF Expected(c) = "refused" /\ ~Names(c, o) THEN "C04:refusal-does-not-name-the-unsupported-feature:" \o Refuser(c)
   ELSE "ok"
 
 (* ---- C55 ---- *)
